@@ -41,10 +41,9 @@ type Modules struct {
 	// that a grouping that (directly or indirectly) uses itself is detected
 	// instead of recursing forever. Protected by entryCacheMu.
 	entryInProgress map[Node]bool
-	// definedLater holds the groupings whose definitions ToEntry has met
-	// while a grouping was being converted, together with the entries that
-	// collect their errors. Protected by entryCacheMu.
-	definedLater []definedGrouping
+	// definedLater holds the groupings whose definitions ToEntry has met and
+	// not converted yet (see convertDefined). Protected by entryCacheMu.
+	definedLater []*Grouping
 	// mergedSubmodule is used to prevent re-parsing a submodule that has already
 	// been merged into a particular entity when circular dependencies are being
 	// ignored. The keys of the map are a string that is formed by concatenating
@@ -566,42 +565,40 @@ func (ms *Modules) enterEntry(n Node) bool {
 	return true
 }
 
-// definedGrouping is a grouping defined in the statement an entry was made
-// from.
-type definedGrouping struct {
-	in *Entry
-	g  *Grouping
-}
-
-// deferDefined notes that g is defined in the statement e is being made from.
-func (ms *Modules) deferDefined(e *Entry, g *Grouping) {
+// deferDefined notes that the definition of g has been met.
+func (ms *Modules) deferDefined(g *Grouping) {
 	ms.entryCacheMu.Lock()
 	defer ms.entryCacheMu.Unlock()
-	ms.definedLater = append(ms.definedLater, definedGrouping{e, g})
+	ms.definedLater = append(ms.definedLater, g)
 }
 
-// convertDefined converts the groupings noted by deferDefined, for the sake of
-// the errors in them, once no grouping is being converted any more. A
-// definition is not a use: a grouping defined inside a grouping g (at any
-// depth) may use g without g using itself, which is what converting it while
-// g is under way would report.
-func (ms *Modules) convertDefined() {
-	for d, ok := ms.nextDefined(); ok; d, ok = ms.nextDefined() {
-		d.in.importErrors(ToEntry(d.g))
+// convertDefined converts the groupings noted by deferDefined that are defined
+// in the module or submodule root, for the sake of the errors in them, and
+// files those errors on *e, the entry of root -- once root itself has been
+// converted. Converting a definition where it is met will not do: a definition
+// is not a use, and a grouping defined inside a grouping g (at any depth) may
+// use g without g using itself, which is what converting it while g is under
+// way would report.
+func (ms *Modules) convertDefined(root *Module, e **Entry) {
+	if *e == nil {
+		return
+	}
+	for g := ms.nextDefined(root); g != nil; g = ms.nextDefined(root) {
+		(*e).importErrors(ToEntry(g))
 	}
 }
 
-// nextDefined takes the next grouping noted by deferDefined off the list,
-// unless a grouping is still being converted.
-func (ms *Modules) nextDefined() (d definedGrouping, ok bool) {
+// nextDefined takes the next grouping defined in root off the list.
+func (ms *Modules) nextDefined(root *Module) *Grouping {
 	ms.entryCacheMu.Lock()
 	defer ms.entryCacheMu.Unlock()
-	if len(ms.entryInProgress) > 0 || len(ms.definedLater) == 0 {
-		return d, false
+	for i, g := range ms.definedLater {
+		if RootNode(g) == root {
+			ms.definedLater = append(ms.definedLater[:i:i], ms.definedLater[i+1:]...)
+			return g
+		}
 	}
-	d = ms.definedLater[0]
-	ms.definedLater = ms.definedLater[1:]
-	return d, true
+	return nil
 }
 
 // leaveEntry records that the conversion of n has ended.
